@@ -204,6 +204,8 @@ theorem rejected_forever (q q1 : Req) (e : Err) (h : q.body = (.error e, q1))
     intro a ha
     cases a with
     | inputRead => cases ha
+    | replaceInput r => cases ha
+    | setContentLength s => cases ha
     | bodyRead n => simp [Req.access, hb]
     | bodyString => simp [Req.access, Req.getBodyString, hb]
   have hrun : ∀ ops : List Access, (∀ a ∈ ops, a.framework = true) → q1.run ops = q1 := by
